@@ -48,26 +48,9 @@ def _pair(draw):
     w = draw(gens.witness_s(pool))
     cls = draw(st.sampled_from(["identical", "sublist", "weakened", "farkas", "scaled", "separated", "unrelated",
                                 "unbounded", "infeasible-left", "infeasible-right", "empty-right", "empty-left",
-                                "equal-bounds", "both-infeasible", "separated-large-constant", "separated-large-constant", "farkas-chain", "lp-hard", "small-coefficient"]))
+                                "equal-bounds", "both-infeasible", "separated-large-constant", "separated-large-constant", "farkas-chain", "small-coefficient"]))
     L = draw(gens.termlist_s(pool, w, 1, 5))
-    if cls == "lp-hard":
-        # a mined, satisfiable, badly scaled system on which the solver's first answer is not optimal, against one of its rows,
-        # itself or a sub-list (must be True), or against a row pushed beyond the witness (must be False)
-        L, w, row = draw(gens.lp_hard_s(("refines", "simplify")))
-        pool = sorted(w)
-        how = draw(st.sampled_from(["row", "row", "self", "sublist", "beyond"]))
-        k = row if row is not None else draw(st.integers(0, len(L) - 1))
-        if how == "row":
-            R = [[dict(L[k][0]), L[k][1]]]
-        elif how == "self":
-            R = [[dict(t[0]), t[1]] for t in L]
-        elif how == "sublist":
-            R = [[dict(t[0]), t[1]] for t in L if draw(st.booleans())] or [[dict(L[0][0]), L[0][1]]]
-        else:
-            lhs = gens.dot(L[k][0], w)
-            R = [[dict(L[k][0]), float(lhs - max(1.0, abs(lhs)) * 0.01 - 1.0)]]
-        cls += "/" + how
-    elif cls == "identical":
+    if cls == "identical":
         R = list(draw(st.permutations(L)))
     elif cls == "sublist":
         R = [t for t in L if draw(st.booleans())] or L[:1]
@@ -196,6 +179,27 @@ def _pair(draw):
         tgt.insert(draw(st.integers(0, len(tgt))), [{}, c])
         cls += "+varfree-%s-%s" % (side, "sat" if c >= 0 else "viol")
     return cls, L, R, pool, w
+
+
+def lp_hard_cases(entry, full=True):
+    """every query derived from one mined solver-hard system: under each of the 8 sign patterns, the system against each of its
+    rows and itself (full: against every non-empty sub-list) -> must be True; against each row pushed beyond the witness -> False"""
+    import itertools
+    for signs in gens.LP_SIGNS:
+        L, w = gens.lp_hard_system(entry, signs)
+        n = len(L)
+        subs = [c for r in range(1, n + 1) for c in itertools.combinations(range(n), r)] if full else [(i,) for i in range(n)] + [tuple(range(n))]
+        for sub in subs:
+            yield {"kind": "tl", "cls": "lp-hard/sublist", "L": L, "R": [[dict(L[i][0]), L[i][1]] for i in sub], "via": "refines", "src": entry.get("file")}
+        for k in range(n):
+            lhs = gens.dot(L[k][0], w)
+            yield {"kind": "tl", "cls": "lp-hard/beyond", "L": L, "R": [[dict(L[k][0]), float(lhs - max(1.0, abs(lhs)) * 0.01 - 1.0)]], "via": "refines",
+                   "src": entry.get("file")}
+
+
+def enumerate_cases(tier):
+    for e in gens.lp_hard_corpus():
+        yield from lp_hard_cases(e, full=(tier == "thorough"))
 
 
 @st.composite
